@@ -670,6 +670,26 @@ func c19Report(r *Run, st c19Start, ops []bOp) {
 				}
 			}
 		}
+		// shorter arguments
+		for i := range ops {
+			try := func(o bOp) {
+				cand := append([]bOp{}, ops...)
+				cand[i] = o
+				if t2, d2, b2 := c19Fails(st, cand); b2 && len(d2[:min(len(d2), t2.FailAt+1)]) <= len(ops) {
+					ops, changed = d2[:min(len(d2), t2.FailAt+1)], true
+				}
+			}
+			if i < len(ops) && (ops[i].K == "Write" || ops[i].K == "WriteString") && len(ops[i].B) > 1 {
+				o := ops[i]
+				o.B = o.B[:len(o.B)/2]
+				try(o)
+			}
+			if i < len(ops) && ops[i].K == "ReadFrom" && len(ops[i].S) > 0 {
+				o := ops[i]
+				o.S = o.S[:len(o.S)-1]
+				try(o)
+			}
+		}
 		// a simpler start
 		if !st.isNil {
 			s2 := c19Start{isNil: true}
